@@ -31,11 +31,11 @@ LEVEL_TEXT = ("Exploration: thousands of generated programs per run are evaluate
               "reference; every delivered value is compared (1e-12 relative plus the reference's propagated rounding bound, strings exactly). "
               "Mutated programs must fail with a BASIC error or agree with the reference; none may crash, abort or hang.")
 FLOORS = {"quick": 500, "thorough": 5000}
-SHARDS = {"quick": 8, "thorough": 16}
+SHARDS = {"quick": int(os.environ.get("C17_SHARDS", "8")), "thorough": 16}      # C17_SHARDS: development (sensitivity runs)
 BUDGET = {"quick": {"valid": 230, "large": 6, "malformed": 300}, "thorough": {"valid": 2200, "large": 60, "malformed": 2600},
           "replay": {"valid": 1, "large": 1, "malformed": 1}}
 ASAN_EVERY = {"quick": 3, "thorough": 2, "replay": 1}
-TIMEOUT_S = 30.0
+TIMEOUT_S = 60.0
 TOL = 1e-12
 KSLOTS = 10          # values observed through SAVE in the RATES and CALCULATE_VALUES hosts
 
@@ -185,9 +185,10 @@ class Engine(object):
             return {"timeout": True}
         if line == b"":
             rc = a.p.wait()
-            tail = a.stderr_tail(6000)
+            tail = a.stderr_tail(60000)
             a.stop()
-            return {"died": rc, "stderr": tail}
+            k = max(tail.find("ERROR: AddressSanitizer"), tail.find("runtime error:"), tail.find("C08-ORACLE"))
+            return {"died": rc, "stderr": tail[max(k - 200, 0):max(k, 0) + 2200] if k >= 0 else tail[-2500:]}
         return None
 
     def close(self):
@@ -727,7 +728,7 @@ def check_malformed(case, ctx):
             if r.status in ("ok", "error"):
                 raise Violation("hang", "ASan build: no answer within %.0f s for a program that ends in the reference" % (4 * TIMEOUT_S))
         else:
-            raise Violation("sanitizer", "ASan/UBSan build ended with status %s on a mutated program\n%s" % (a["died"], a.get("stderr", "")[-2500:]))
+            raise Violation("sanitizer", "ASan/UBSan build ended with status %s on a mutated program\n%s" % (a["died"], a.get("stderr", "")[:2500]))
     if not alive:
         ctx.event("malformed:timeout_reference_undefined")
         return {"nontrivial": False, "classes": cls + ["verdict:timeout_not_judged"]}
@@ -826,7 +827,7 @@ def malformed_case(draw, asan_every):
     return {"kind": "malformed", "lines": lines, "mutation": kind, "asan": draw(st.integers(0, asan_every - 1)) == 0}
 
 
-SHRINK_EVALUATIONS = 120
+SHRINK_EVALUATIONS = 60
 
 
 def bounded(ctx):
